@@ -36,16 +36,17 @@ TABLE = {
    groups=[("KeystoneParseWf.v", ["parse_wf_doc_tree", "parse_no_adjacent_text", "parse_single_root_element", "parse_no_text_under_root"]),
            ("KeystoneParse.v", ["parse_links_tree"])]),
  "C07": dict(
-   intro="C07 -- an entity reference is equivalent to its replacement text written in place.\n   Machine level: processing pre ++ mid ++ post inline equals processing pre, then mid as an entity value\n   (its own stream, entity mode), then post -- for attribute values and for character data -- provided no\n   CR LF pair is split by a cut (XML 2.11 normalises line ends per entity; the two *_split_crlf lemmas show\n   the proviso is necessary).  On the model: at an entity reference the loops really run the replacement\n   text in place (norm_attr_entity_step, text_loop_entity_step); the first declaration of a name wins.\n   Whole documents on the fragment of Spec/CstEnt.v (the CstText fragment plus an internal DTD subset declaring general\n   entities, references in content and in attribute values, nested up to the documented limits, re-declarations):\n   sem c is DEFINED as the meaning of the document with every reference replaced by its (first-declared) replacement\n   text, computed on the abstract syntax; parse (render c) yields exactly that (parse_render_sem_ent_partial), so two\n   documents that differ only in what is routed through entities (hoist_insensitive_partial), and a document and its\n   fully inlined DOCTYPE-free version (inlined_equiv_partial), give identical trees.  `_partial`: entities whose\n   replacement text is character data (etext_only c: literals, character / predefined references, nested references);\n   replacement texts containing markup are decided by the metamorphic correspondence (D15 is the known finding there).\n   With allow_dtd = false the same rendering gives Err DtdDetected (dtd_refused, markup entities included).",
-   imports=["From RX.Spec Require Import Text.", "From RX.Spec Require Cst CstText CstEnt.", "From RX.Proofs Require Import TextMachine HoistProofs RejectProofs CstMain CstTextSem CstEntSem CstEntDoc CstEntMain."],
-   groups=[("CstEntMain.v", ["parse_render_sem_ent_partial", "hoist_insensitive_partial", "inlined_equiv_partial", "dtd_refused"], "Module E := CstEnt."),
+   intro="C07 -- an entity reference is equivalent to its replacement text written in place.\n   Machine level: processing pre ++ mid ++ post inline equals processing pre, then mid as an entity value\n   (its own stream, entity mode), then post -- for attribute values and for character data -- provided no\n   CR LF pair is split by a cut (XML 2.11 normalises line ends per entity; the two *_split_crlf lemmas show\n   the proviso is necessary).  On the model: at an entity reference the loops really run the replacement\n   text in place (norm_attr_entity_step, text_loop_entity_step); the first declaration of a name wins.\n   Whole documents on the fragment of Spec/CstEnt.v (the CstText fragment plus an internal DTD subset declaring general\n   entities, references in content and in attribute values, nested up to the documented limits, re-declarations):\n   sem c is DEFINED as the meaning of the document with every reference replaced by its (first-declared) replacement\n   text, computed on the abstract syntax; parse (render c) yields exactly that (parse_render_sem_ent_partial), so two\n   documents that differ only in what is routed through entities (hoist_insensitive_partial), and a document and its\n   fully inlined DOCTYPE-free version (inlined_equiv_partial), give identical trees.  The\n   unrestricted theorems cover entities whose replacement text contains markup (elements with attributes, comments, PIs,\n   CDATA, text, further references), with text merging across entity boundaries; their size hypotheses are on the meaning\n   (an entity can multiply nodes).  The `_partial` variants (character-data entities) keep the input-length hypothesis.\n   Excluded by wf_doc, each with its reason in Spec/CstEnt.v: the CR LF proviso, D15 (the known finding), character\n   references to TAB / LF / CR / '&' / '<' inside entity values (declaration-time vs use-time reading).\n   With allow_dtd = false the same rendering gives Err DtdDetected (dtd_refused, markup entities included).",
+   imports=["From RX.Spec Require Import Text.", "From RX.Spec Require Cst CstText CstEnt.", "From RX.Proofs Require Import TextMachine HoistProofs RejectProofs CstMain CstTextSem CstEntSem CstEntDoc CstEntMain CstEntCMain."],
+   groups=[("CstEntCMain.v", ["parse_render_sem_ent", "hoist_insensitive", "inlined_equiv"], "Module E := CstEnt."),
+           ("CstEntMain.v", ["parse_render_sem_ent_partial", "hoist_insensitive_partial", "inlined_equiv_partial", "dtd_refused"]),
            ("HoistProofs.v", ["push_attr_chunks_app", "push_attr_lits_depth", "attr_hoist_equiv", "attr_hoist_normalise", "norm_attr_entity_step",
                               "push_text_chunks_app", "text_boundary", "text_hoist_equiv", "text_hoist_decode", "text_loop_entity_step",
                               "entity_first_declaration_wins", "text_hoist_split_crlf", "attr_hoist_split_crlf"]),
            ("RejectProofs.v", ["find_entity_first", "ok_refs_defined_first"], "Local Notation token := Tokenizer.token.")]),
  "C08": dict(
-   intro="C08 -- ill-formed documents are rejected.  (1) the three character classes are the Fifth Edition\n   productions for every scalar value (tables regenerated from the source on every run);\n   (2) local rejection theorems, 'accepted implies constraint': comment bodies, ']]>' in text, misplaced\n   declaration, '<' in attribute values, every consumed character is a Char, end tags match the open\n   element and cannot close an element opened outside the current entity, reserved prefixes and URIs,\n   entity references are declared (first declaration wins), and the document-level token shape: only\n   comments / PIs (and entity declarations) before the root, at most one root element, only\n   comments / PIs after it.  (3) Soundness against the grammar on the byte fragment that Spec/Cst.v covers\n   (in_fragment, Proofs/CstSound.v: printable ASCII / TAB / LF, no '&', no ':', no '<!D' '<![' '<?xml' 'xmlns';\n   attrs_raw: no attribute value was normalised): every ACCEPTED input is the rendering of a well-formed abstract\n   document (parse_sound_fragment) -- the parser accepts nothing outside the grammar there -- and its tree is that\n   document's meaning (parse_sound_and_complete).  (4) Truncation: for EVERY accepted document without a DOCTYPE and\n   every cut (on a character boundary) before the end of its root element, the prefix is rejected\n   (truncation_rejected_partial; root_element_end d and firstn_N are defined in Proofs/TruncMain.v).",
-   imports=["From RX.Spec Require Chars.", "From RX.Spec Require Cst.", "From RX.Proofs Require Import CharTablesProofs RejectProofs WfParseTok WfParseChars WfParse CstSound CstSoundDoc CstSoundCor TruncMain."],
+   intro="C08 -- ill-formed documents are rejected.  (1) the three character classes are the Fifth Edition\n   productions for every scalar value (tables regenerated from the source on every run);\n   (2) local rejection theorems, 'accepted implies constraint': comment bodies, ']]>' in text, misplaced\n   declaration, '<' in attribute values, every consumed character is a Char, end tags match the open\n   element and cannot close an element opened outside the current entity, reserved prefixes and URIs,\n   entity references are declared (first declaration wins), and the document-level token shape: only\n   comments / PIs (and entity declarations) before the root, at most one root element, only\n   comments / PIs after it.  (3) Soundness against the grammar on the byte fragment that Spec/Cst.v covers\n   (in_fragment, Proofs/CstSound.v: printable ASCII / TAB / LF, no '&', no ':', no '<!D' '<![' '<?xml' 'xmlns';\n   attrs_raw: no attribute value was normalised): every ACCEPTED input is the rendering of a well-formed abstract\n   document (parse_sound_fragment) -- the parser accepts nothing outside the grammar there -- and its tree is that\n   document's meaning (parse_sound_and_complete).  (4) Truncation: for EVERY accepted document (DOCTYPE and entity expansion included) and\n   every cut (on a character boundary) before the end of its root element, the prefix is rejected\n   (truncation_rejected; root_element_end d and firstn_N are defined in Proofs/TruncMain.v).  (5) Soundness over\n   Unicode (in_fragment_u, Proofs/CstSoundU.v: valid UTF-8, no CR, '&', ':', '<!D', '<![', '<?xml', 'xmlns', no leading\n   BOM): every accepted input is the rendering of a well-formed document of Spec/CstU.v (parse_sound_fragment_u).",
+   imports=["From RX.Spec Require Chars.", "From RX.Spec Require Cst.", "From RX.Proofs Require Import CharTablesProofs RejectProofs WfParseTok WfParseChars WfParse CstSound CstSoundDoc CstSoundCor TruncMain TruncDtdMain CstSoundU CstSoundUDoc CstSoundUCor.", "From RX.Spec Require CstU."],
    groups=[("CharTablesProofs.v", ["char_tables_conform", "byte_tables_conform", "byte_space_conform", "byte_char_agree"]),
            ("RejectProofs.v", ["ok_comment_body", "ok_text_no_cdata_end", "ok_pi_not_declaration", "ok_no_lt_in_attr", "skip_chars_only_chars",
                                "skip_chars_only_chars_text", "consume_chars_only_chars", "ok_tags_balanced", "ok_reserved_names",
@@ -53,7 +54,9 @@ TABLE = {
                                "ok_document_shape", "ok_no_text_before_root"], "Local Notation token := Tokenizer.token."),
            ("WfParse.v", ["parse_comments_ok", "parse_names_are_names", "parse_all_chars", "parse_doc_wf"]),
            ("CstSoundDoc.v", ["parse_sound_fragment"]), ("CstSoundCor.v", ["parse_sound_and_complete"]),
-           ("TruncMain.v", ["truncation_not_ok_partial", "truncation_rejected_partial"])]),
+           ("TruncMain.v", ["truncation_not_ok_partial", "truncation_rejected_partial"]),
+           ("TruncDtdMain.v", ["truncation_not_ok", "truncation_rejected"]),
+           ("CstSoundUDoc.v", ["parse_sound_fragment_u"]), ("CstSoundUCor.v", ["parse_sound_and_complete_u"])]),
  "C03": dict(
    intro="C03 -- elements, comments and PIs mirror the document's logical structure.  Lexer post-conditions\n   (with a token recorder as callback): a comment token's text is exactly the source between '<!--' and\n   '-->'; a PI's target and value are the source strings (value without leading whitespace, None when\n   empty); CDATA / text tokens are their source slices; the DOCTYPE and the prolog / epilog deliver only\n   comments, PIs (and entity declarations); a start tag delivers ElementStart, attributes, one ElementEnd.\n   The XML declaration has no callback at all.  Document-level token shape: Proofs/RejectProofs.v.\n   Completeness on the fragment of Spec/Cst.v (ASCII names and content, no DOCTYPE, references, namespaces, CR): every\n   rendering of a well-formed abstract document -- with any layout choices: whitespace in tags, quote style,\n   empty-element syntax, prolog / epilog comments and PIs -- parses to exactly its meaning (view = sem:\n   kinds, names, attributes in order with values, comment text, PI target / value, text, children counts), so two\n   renderings with the same meaning give the same tree (layout_insensitive).  view is defined in Proofs/CstMain.v.\n   The same over Unicode (Spec/CstU.v: names, values, text, comments, PIs are lists of scalar values in the 5th-edition\n   Name / Char classes, rendered in UTF-8): parse_render_sem_u, layout_insensitive_u, render_valid_utf8.",
    imports=["From RX.Spec Require Cst.", "From RX.Spec Require CstU.", "From RX.Proofs Require Import LexerProofs RejectProofs CstMain CstUMain."],
@@ -77,11 +80,13 @@ TABLE = {
            ("AttrListProofs.v", ["process_attribute_classifies", "resolve_attributes_in_order", "resolve_attributes_unique",
                                  "resolve_attributes_unique_eqb", "resolve_attributes_namespace"])]),
  "C06": dict(
-   intro="C06 -- names and in-scope namespaces: the element's namespace range denotes\n   Spec.scope_of (own declarations, then inherited bindings not re-declared); names resolve to the\n   first binding of their prefix; duplicate declarations are detected; the 2^16 limit.\n   (scopes_refine carries the hypothesis that the parent's scope has unique prefixes, which\n   scope_prefixes_unique re-establishes.)  Whole documents on the fragment of Spec/CstNs.v (the Cst fragment with\n   qualified names and xmlns / xmlns:p declarations interleaved with attributes; empty URIs, xml:lang, p:xmlns\n   attributes included): every rendering of a namespace-well-formed abstract document parses to exactly its\n   meaning, where the tag's namespace, each attribute's namespace and each element's in-scope list\n   (Node::namespaces()) are computed ONLY with Spec/Scope.v from the WRITTEN declarations and the parent's scope\n   (parse_render_sem_ns: view = Some (sem c)).  Two resource hypotheses, stated with spec functions: at most 65535\n   distinct declared bindings (the documented limit) and a namespace table within u32::MAX entries.",
-   imports=["From RX.Spec Require Scope.", "From RX.Spec Require Cst CstNs.", "From RX.Proofs Require Import ScopeProofs ScopeParse CstNsView CstNsMain."],
+   intro="C06 -- names and in-scope namespaces: the element's namespace range denotes\n   Spec.scope_of (own declarations, then inherited bindings not re-declared); names resolve to the\n   first binding of their prefix; duplicate declarations are detected; the 2^16 limit.\n   (scopes_refine carries the hypothesis that the parent's scope has unique prefixes, which\n   scope_prefixes_unique re-establishes.)  Whole documents on the fragment of Spec/CstNs.v (the Cst fragment with\n   qualified names and xmlns / xmlns:p declarations interleaved with attributes; empty URIs, xml:lang, p:xmlns\n   attributes included): every rendering of a namespace-well-formed abstract document parses to exactly its\n   meaning, where the tag's namespace, each attribute's namespace and each element's in-scope list\n   (Node::namespaces()) are computed ONLY with Spec/Scope.v from the WRITTEN declarations and the parent's scope\n   (parse_render_sem_ns: view = Some (sem c)).  Two resource hypotheses, stated with spec functions: at most 65535\n   distinct declared bindings (the documented limit) and a namespace table within u32::MAX entries.\n   The same over Unicode (Spec/CstFull.v, stage S1: prefixes, local names, URIs, values and content are scalar values of\n   the 5th-edition classes rendered in UTF-8): parse_render_sem_full_s1; stage S2 adds CstText's pieces everywhere:\n   attribute values, text runs and the VALUES OF NAMESPACE DECLARATIONS are lists of literals (incl. CR), character and\n   predefined references (CDATA in text) -- a URI supplied through references (xmlns:p='&#117;rn:x') declares the\n   normalised URI, and the reserved-name rules are decided on it: parse_render_sem_full_s2, spelling_insensitive_full_s2.",
+   imports=["From RX.Spec Require Scope.", "From RX.Spec Require Cst CstNs CstU CstFull.", "From RX.Proofs Require Import ScopeProofs ScopeParse CstNsView CstNsMain CstFullMain CstFullS1 CstFullS2."],
    groups=[("ScopeParse.v", ["parse_scopes_ok", "parse_names_ok"]),
            ("ScopeProofs.v", ["scopes_refine", "scope_prefixes_unique", "names_resolve", "unknown_prefix_rejected", "unknown_prefix_never_ok",
                               "duplicate_declaration_rejected", "push_ns_appends", "push_ns_limit", "ns_values_limit_is"]),
+           ("CstFullS1.v", ["parse_render_sem_full_s1", "layout_insensitive_full_s1"], "Import CstFull."),
+           ("CstFullS2.v", ["parse_render_sem_full_s2", "spelling_insensitive_full_s2"], "Import CstFull."),
            ("CstNsMain.v", ["parse_render_sem_ns", "layout_insensitive_ns"], "Import CstNs.")]),
  "C09": dict(
    intro="C09 -- entity expansion is bounded yet not over-restricted.  (1) the loop detector is sound and complete\n   w.r.t. the trace specification, with the documented numbers (10, 255) against constants regenerated from the\n   source; (2) the node budget over a whole parse: a successfully parsed document has at most\n   1 + len + 256 * len * amp nodes (hence <= 256 * (len + 1) * (amp + 1)), for every input and all options;\n   without a DOCTYPE at most len + 1 nodes; (3) the byte budget: the text of all Text nodes plus all attribute\n   values (text_len + value_len, BudgetBytesBuild.v) is at most len + 256 * len * amp bytes.",
@@ -122,12 +127,13 @@ TABLE = {
            ("LexerProofs.v", ["parse_comment_post", "parse_pi_post", "parse_cdata_post", "parse_text_post", "parse_element_tokens",
                               "parse_close_element_post"], "Local Notation token := Tokenizer.token.", "forall (text : bytes),")]),
  "C14": dict(
-   intro="C14 -- text positions and error reports: text_pos_at is total on valid UTF-8, clamps, counts\n   rows by LF and columns in characters, stays in bounds and moves with inserted line breaks / spaces;\n   every Err returned by parse carries the position of an offset inside the input (or is one of the\n   seven position-less variants, which report 1:1), hence row / column are within the input.  Shift over a whole\n   parse: whitespace put in front of a document (no BOM / declaration) leaves the outcome unchanged -- an Ok result is\n   the same document with shifted offsets, an Err has the same variant and payload and is reported at the same place of\n   the document (offset + k), i.e. k spaces move the column of a row-1 error by k, k line breaks move the row by k.\n   The same for whitespace inserted at any insertion point of the prolog before a DOCTYPE (after the BOM / XML\n   declaration, after each comment or PI of the first Misc run; insertion_point is defined operationally and is\n   decidable by insertion_point_b): parse_err_shift_mid_partial, parse_ok_shift_mid_partial and the spaces / lines\n   corollaries (an error on the insertion point's row moves by k columns; k line breaks move the row by k).",
-   imports=["From RX.Proofs Require Import PositionProofs ErrPosStream ErrPosTokenizer ErrPosParse ErrPayload RangeShiftBuilder ErrShiftBase ErrShiftFinal ErrShiftMidCore ErrShiftMidFinal."],
+   intro="C14 -- text positions and error reports: text_pos_at is total on valid UTF-8, clamps, counts\n   rows by LF and columns in characters, stays in bounds and moves with inserted line breaks / spaces;\n   every Err returned by parse carries the position of an offset inside the input (or is one of the\n   seven position-less variants, which report 1:1), hence row / column are within the input.  Shift over a whole\n   parse: whitespace put in front of a document (no BOM / declaration) leaves the outcome unchanged -- an Ok result is\n   the same document with shifted offsets, an Err has the same variant and payload and is reported at the same place of\n   the document (offset + k), i.e. k spaces move the column of a row-1 error by k, k line breaks move the row by k.\n   The same for whitespace inserted at any insertion point of the prolog before a DOCTYPE (after the BOM / XML\n   declaration, after each comment or PI of the first Misc run; insertion_point is defined operationally and is\n   decidable by insertion_point_b): parse_err_shift_mid_partial, parse_ok_shift_mid_partial and the spaces / lines\n   corollaries (an error on the insertion point's row moves by k columns; k line breaks move the row by k).  And for\n   insertion points AFTER a DOCTYPE (between the DOCTYPE and the root, after later comments / PIs) when the DOCTYPE\n   records no general entity (parameter / external entities, ELEMENT / ATTLIST / NOTATION, comments and PIs inside the\n   subset are allowed): parse_err_shift_dtd, parse_ok_shift_dtd.",
+   imports=["From RX.Proofs Require Import PositionProofs ErrPosStream ErrPosTokenizer ErrPosParse ErrPayload RangeShiftBuilder ErrShiftBase ErrShiftFinal ErrShiftMidCore ErrShiftMidFinal ErrShiftDtdFinal."],
    groups=[("PositionProofs.v", ["text_pos_total_valid", "text_pos_clamped", "text_pos_on_boundary", "text_pos_bounds", "text_pos_shift_lines_valid",
                                  "text_pos_shift_spaces_valid", "text_pos_shift_lines_gen", "text_pos_shift_spaces_gen"]),
            ("ErrShiftFinal.v", ["parse_err_shift", "parse_ok_shift", "parse_err_shift_spaces", "parse_err_shift_lines"]),
            ("ErrShiftMidFinal.v", ["parse_err_shift_mid_partial", "parse_ok_shift_mid_partial", "parse_err_shift_mid_spaces", "parse_err_shift_mid_lines"]),
+           ("ErrShiftDtdFinal.v", ["parse_err_shift_dtd", "parse_ok_shift_dtd", "parse_err_shift_dtd_spaces", "parse_err_shift_dtd_lines"]),
            ("ErrPosTokenizer.v", ["tokenizer_errors_positioned"], "Local Notation token := Tokenizer.token."),
            ("ErrPosParse.v", ["token_errors_positioned", "parse_errors_positioned", "parse_error_in_bounds"]),
            ("ErrPayload.v", ["parse_error_payload_from_source"])]),
